@@ -314,6 +314,16 @@ Proof.
   destruct (is_AL (p_acc x)); inversion H; reflexivity.
 Qed.
 
+Lemma check_current_stage_id b s ds s' ds' :
+  process_days (check_proc_current b) s ds = ROk (s', ds') -> ds' = ds.
+Proof.
+  unfold check_proc_current. destruct b; [|apply check_stage_id].
+  apply process_days_id; try reflexivity.
+  intros f s0 t x s1 x1 Hf H. cbn [check_proc_fixed pr_posting] in Hf. injection Hf as <-.
+  unfold ck_posting_cb in H. destruct (negb (is_open s0 (p_acc x))); try discriminate.
+  destruct (is_AL (p_acc x)); inversion H; reflexivity.
+Qed.
+
 (* the filter stage keeps the days inside the span and empties the others *)
 Lemma filter_stage_spec sp : forall ds s s' ds',
   process_days (filter_proc sp) s ds = ROk (s', ds') ->
@@ -617,9 +627,9 @@ Proof.
   unfold cfg_partition in H. rewrite builder_period_spec in H.
   destruct (new_partition (clip (mkPeriod (bc_from cfg) (bc_to cfg)) (journal_period dl)) (bc_interval cfg) (bc_last cfg)) as [part0| |] eqn:Epart; try discriminate.
   cbn [cbind] in H. unfold run_stage in H.
-  destruct (process_days (check_proc (bc_lenient cfg)) check_init (b_days (builder_of dl))) as [[s1 d1]| |] eqn:E1; try discriminate.
+  destruct (process_days (check_proc_current (bc_lenient cfg)) check_init (b_days (builder_of dl))) as [[s1 d1]| |] eqn:E1; try discriminate.
   cbn [cbind of_presult fst snd] in H.
-  pose proof (check_stage_id _ _ _ _ _ E1) as ->.
+  pose proof (check_current_stage_id _ _ _ _ _ E1) as ->.
   destruct (process_days (filter_proc (span part0)) tt (b_days (builder_of dl))) as [[s4 d4]| |] eqn:E4; try discriminate.
   cbn [cbind of_presult fst snd] in H.
   pose proof (filter_stage_spec _ _ _ _ _ E4) as ->.
